@@ -519,3 +519,73 @@ def prefix_points(g):
                 out.append(("enc-" + tags[0], P))
         _PREFIX_PTS[g] = out
     return _PREFIX_PTS[g]
+
+
+def _fpow(f, a, e):
+    r = f.one
+    while e:
+        if e & 1:
+            r = f.mul(r, a)
+        a = f.mul(a, a)
+        e >>= 1
+    return r
+
+
+_CUBE = {}
+
+
+def cube_roots(g, c):
+    """all cube roots of c in Fq (g = 1) / Fq2 (g = 2); the 3-Sylow subgroup of the unit group has order 9 in both"""
+    f = FQ if g == 1 else FQ2
+    n = Q - 1 if g == 1 else Q * Q - 1
+    if f.is_zero(c):
+        return [f.zero]
+    if _fpow(f, c, n // 3) != f.one:
+        return []
+    t = n // 9
+    assert t % 3 != 0
+    if g not in _CUBE:
+        k = 2
+        while True:
+            h = f.small(k) if g == 1 else (k, 1)
+            if _fpow(f, h, n // 3) != f.one:
+                break
+            k += 1
+        a = _fpow(f, h, t)                       # generator of the Sylow subgroup (order 9)
+        syl = [f.one]
+        for _ in range(8):
+            syl.append(f.mul(syl[-1], a))
+        _CUBE[g] = syl
+    syl = _CUBE[g]
+    u = pow(3, -1, t)
+    x0 = _fpow(f, c, u)                          # x0^3 = c * e with e = c^(3u-1) in the Sylow subgroup
+    e = f.mul(_fpow(f, x0, 3), f.inv(c))
+    for z in syl:
+        if f.mul(_fpow(f, z, 3), e) == f.one:
+            x = f.mul(x0, z)
+            om = syl[3]
+            return [f.norm(x), f.norm(f.mul(x, om)), f.norm(f.mul(x, f.mul(om, om)))]
+    raise AssertionError("cube root")
+
+
+def y_threshold_points(g, rng, count=4, spread=1 << 16):
+    """On-curve points (outside the subgroup in general) whose y - for G2 the decisive coefficient y.c1 - lies within
+    `spread` of the threshold (q-1)/2 that separates a root from its negative in the sort order: x is a cube root of
+    y^2 - b. These decide the comparison behind the sort flag."""
+    c = E1 if g == 1 else E2
+    f = c.f
+    half = (Q - 1) // 2
+    out = []
+    ds = list(range(0, 40)) + [rng.randrange(spread) for _ in range(400)]
+    for d in ds:
+        for side in (0, 1):
+            yv = half - d if side == 0 else half + 1 + d
+            for y in ([yv] if g == 1 else [(rng.randrange(Q), yv), (yv, 0), (0, yv)]):
+                xs = cube_roots(g, f.sub(f.mul(y, y), c.b))
+                if xs:
+                    P = (rng.choice(xs), f.norm(y))
+                    assert c.on_curve(P)
+                    out.append(P)
+        if len(out) >= count:
+            break
+    return out
